@@ -27,10 +27,14 @@ def c11_plan(tier):
             "walks": (1500, 90),
         }
     return rc, {
-        "mc": G.consts(MaxVer=5, Features=feats | {"compact"}, Crashers={"a"}),
+        # (bounds fitted to measured state counts: MaxVer=5 with compaction is 34 M distinct states / 35 min,
+        # MaxVer=4 is 10.9 M / 11 min on a loaded machine)
+        "mc": G.consts(MaxVer=4, Features=feats | {"compact"}, Crashers={"a"}),
+        "mc_timeout": 3000,
         # (suspicion flips among three nodes do not finish within the hour: the 3-node model is the relay of a
-        # leave / crash + expiry; suspicion is exhaustive in the 2-node model above and sampled in the walks)
-        "mc2": G.consts(Node={"a", "b", "c"}, MaxVer=2, MaxSlots=1, Writers={"a"}, Crashers={"a"},
+        # leave / crash + expiry with two datagrams in flight, 2.3 M distinct states / 4 min; suspicion is
+        # exhaustive in the 2-node model above and sampled in the walks)
+        "mc2": G.consts(Node={"a", "b", "c"}, MaxVer=3, MaxSlots=2, Writers={"a"}, Crashers={"a"},
                         Features={"leave", "expire", "lose"}, Budgets={99}),
         "covers": [G.consts(MaxVer=4, MaxSlots=1, Features=feats, Crashers={"a"})],
         "sim": (G.consts(Node={"a", "b", "c", "d"}, MaxVer=6, MaxSlots=4, Writers={"a", "c"}, Crashers={"c", "d"},
